@@ -99,8 +99,11 @@ class FakeQemuImg:
         return FakeQemuImg.listings[self.tag]
 
 
-def vm_params(images):
+def vm_params(images, readonly=()):
     params = Params()
+    # configuration of single images must not change which images count ("every one of the vm's images")
+    for image in readonly:
+        params[f"image_readonly_{image}"] = "yes"
     params["vms"] = "vm1"
     params["images"] = " ".join(images)
     params["images_base_dir"] = "/images/vm1"
@@ -145,7 +148,7 @@ def run_case(case, verdict):
             FakeQemuImg.listings = {image: render_listing(entries, case["style"], rng)
                                     for image, entries in zip(images, per_image)}
             qcow2.QemuImg = FakeQemuImg
-            params = vm_params(images)
+            params = vm_params(images, case.get("readonly", ()))
             if kind == "qcow2vt":
                 on_sets = [set(tag for tag, size in entries if is_on(size)) for entries in per_image]
                 EXPECT["value"] = set.intersection(*on_sets)
@@ -196,7 +199,7 @@ def run_case(case, verdict):
             ramfile.RamfileBackend.image_state_backend = ImageBackend
             ramfile.os = FakeOs
             try:
-                params = vm_params(images)
+                params = vm_params(images, case.get("readonly", ()))
                 contracted(lambda: ramfile.RamfileBackend._show(params, None))()
                 verdict.count("ramfile_show_compared")
             finally:
@@ -250,6 +253,8 @@ def gen_cases(args, verdict):
             style = "new"
         case = {"kind": kind, "images": images if kind != "qcow2" else images[:1], "style": style,
                 "rseed": rng.randint(0, 10**9), "per_image": per_image if kind != "qcow2" else per_image[:1]}
+        if n_images >= 2 and rng.random() < 0.25:
+            case["readonly"] = rng.sample(images, rng.randint(1, n_images - 1))
         if kind == "ramfile":
             memory = [t for t in universe if rng.random() < 0.7]
             rng.shuffle(memory)
